@@ -26,6 +26,17 @@ class Scheduler(JSONSerializable):
         return self.scheduler.state_dict()
 
     def load_state_dict(self, state_dict: dict[str, Any]) -> None:
+        # a state that went through JSON has string keys only: give the keys of
+        # nested dictionaries (e.g. the milestones of MultiStepLR, a Counter keyed
+        # by epoch) the type they have in the scheduler's own state
+        current = self.scheduler.state_dict()
+        state_dict = dict(state_dict)
+        for name, value in state_dict.items():
+            if isinstance(value, dict) and isinstance(current.get(name), dict):
+                keys = {str(key): key for key in current[name]}
+                state_dict[name] = type(current[name])(
+                    {keys.get(key, key): item for key, item in value.items()}
+                )
         self.scheduler.load_state_dict(state_dict)
 
     @classmethod
